@@ -375,7 +375,12 @@ def build_callbacks(cfg, R, plan, nn_state, tmpdir):
                 def metric(nn, _i=i, _d=d, **kw):
                     R.hist.append(dict(k="EV", cb=_i, ep=R.cur_ep))
                     v = cfg["vals"][R.cur_ep]
-                    return np.float64(v) if _d.get("np") else float(v)
+                    vk = _d.get("vkind") or ("np" if _d.get("np") else "float")
+                    if vk == "tensor0d":
+                        return torch.tensor(float(v), dtype=torch.double)        # what a user metric may well return
+                    if vk == "ndarray0d":
+                        return np.array(float(v))
+                    return np.float64(v) if vk == "np" else float(v)
                 slot.append(MetricEvaluator(d["period"], {"m": metric}, verbose=bool(d.get("verbose")),
                                             log=os.path.join(tmpdir, "eval%d.csv" % i) if d.get("log") else None,
                                             extra_kw=1))
@@ -535,7 +540,7 @@ def real_run(cfg, plan=(), seed=0, k=1, lr=0.05, numeric_hook=None, time_flag=Fa
         for d, o in zip(cfg["cbs"], cbs):
             if d["t"] == "eval":
                 if isinstance(o, MetricEvaluator):
-                    cbstate.append([[int(e), v["m"], None] for e, v in o.past_values])
+                    cbstate.append([[int(e), float(v["m"]), None] for e, v in o.past_values])
                 else:
                     cbstate.append([[int(e), v["SigmaZ"]["mean"], v["SigmaZ"]["variance"]] for e, v in o.past_values])
             elif d["t"] == "saver":
